@@ -3,11 +3,12 @@ CONSTANTS
   Construct = "map"
   MaxN = 3
   MaxK = 2
-  FKinds = {"err", "panicErr", "skip", "eof", "ctx", "excl"}
+  FKinds = {"err", "panicErr", "skip", "eof", "ctx", "excl", "panicW_EOF", "panicW_SKIP"}
   MaxFaults = 1
   OptSet <- OptsCore
   AbortCancels = TRUE
   GenChecksCtx = TRUE
+  GenEofByIs = FALSE
   ResolverSame = TRUE
   ExcludedConsulted = TRUE
   Mut = "none"
